@@ -1,8 +1,8 @@
 CONSTANTS
-  Procs = {1}
+  Procs = {1, 2}
   MaxObj = 4
-  MaxCalls = 3
-  Kinds = {"plain", "ctxval", "probectx", "fail1", "fmtopt", "fail2", "coerce", "custom", "catch"}
+  MaxCalls = 1
+  Kinds = {"ctxval", "probectx", "fail2", "coerce", "catch"}
   SwResetCtxMap = TRUE
   SwResetFmter = TRUE
   SwResetErrs = TRUE
